@@ -233,6 +233,14 @@ def slate_type_law_pl(params, bloc):
             return
         avail = [b for b in left if left[b] > 0]
         tot = sum((coh[b] for b in avail), Fraction(0))
+        if tot == 0:
+            # only slates with cohesion 0 are left: the rest of the ballot is a uniformly random
+            # arrangement of their remaining slots
+            items = [b for b in avail for _ in range(left[b])]
+            arr = set(itertools.permutations(items))
+            for a in arr:
+                law[tuple(seq + list(a))] = law.get(tuple(seq + list(a)), Fraction(0)) + p / len(arr)
+            return
         for b in avail:
             if coh[b] > 0:
                 rec(seq + [b], {**left, b: left[b] - 1}, p * coh[b] / tot)
@@ -484,10 +492,10 @@ def gen_law_specs(seed, tier):
     def three_bloc_params(rnd_):
         blocs = ["W", "C", "H"]
         slates = {"W": ["W1", "W2"], "C": ["C1"], "H": ["H1"]}
-        vec = [Fraction(6, 10), Fraction(3, 10), Fraction(1, 10)]
         coh = {}
-        for b in blocs:
-            v = vec[:]
+        for j, b in enumerate(blocs):
+            # one bloc always has cohesion exactly 0 towards one slate
+            v = [Fraction(7, 10), Fraction(3, 10), Fraction(0)] if j == 0 else [Fraction(6, 10), Fraction(3, 10), Fraction(1, 10)]
             rnd_.shuffle(v)
             coh[b] = {b2: C.enc(x) for b2, x in zip(blocs, v)}
         iv = {b: {b2: skew(slates[b2]) for b2 in [b] + [x for x in blocs if x != b]} for b in blocs}
